@@ -166,7 +166,8 @@ package node_info
 // code-derived well-formedness: the four per-group maps exist and are different objects; vectors have the layout length
 //@ define gpuMapsWF(ni *NodeInfo) bool = ni.UsedSharedGPUsMemory != nil && ni.ReleasingSharedGPUsMemory != nil && ni.AllocatedSharedGPUsMemory != nil && ni.ReleasingSharedGPUs != nil && ni.UsedSharedGPUsMemory != ni.ReleasingSharedGPUsMemory && ni.UsedSharedGPUsMemory != ni.AllocatedSharedGPUsMemory && ni.ReleasingSharedGPUsMemory != ni.AllocatedSharedGPUsMemory
 //@ define vecWF(ni *NodeInfo) bool = ni.VectorMap != nil && len(ni.IdleVector) == len(ni.VectorMap.resourceNames) && len(ni.UsedVector) == len(ni.VectorMap.resourceNames) && len(ni.ReleasingVector) == len(ni.VectorMap.resourceNames)
-//@ define nodeWF(ni *NodeInfo) bool = ni != nil && ni.Node != nil && ni.Idle != nil && ni.Releasing != nil && ni.Used != nil && ni.Allocatable != nil && ni.Idle != ni.Releasing && ni.Idle != ni.Used && ni.Used != ni.Releasing && gpuMapsWF(ni) && vecWF(ni)
+//@ define resWF(ni *NodeInfo) bool = ni.Idle.scalarResources != nil && ni.Used.scalarResources != nil && ni.Releasing.scalarResources != nil && ni.Idle.scalarResources != ni.Used.scalarResources && ni.Idle.scalarResources != ni.Releasing.scalarResources && ni.Used.scalarResources != ni.Releasing.scalarResources && allocated(ni.Idle.scalarResources) && allocated(ni.Used.scalarResources) && allocated(ni.Releasing.scalarResources)
+//@ define nodeWF(ni *NodeInfo) bool = ni != nil && ni.Node != nil && ni.Idle != nil && ni.Releasing != nil && ni.Used != nil && ni.Allocatable != nil && ni.Idle != ni.Releasing && ni.Idle != ni.Used && ni.Used != ni.Releasing && resWF(ni) && gpuMapsWF(ni) && vecWF(ni)
 
 //@ func (*NodeInfo).getNumberOfUsedSharedGPUs
 //@   props C02 C14
@@ -357,4 +358,37 @@ package node_info
 //@   requires ni != nil && ni.Releasing != nil
 //@   pure
 //@   ensures result0 == sumReleasingGPUs(ni) && result1 == sumReleasingGPUMem(ni)
+//@ end
+
+// ---- C14/C01: charging a pod to the node, by status -------------------------------------------------------------
+// "Non-pipelined incl. Releasing: Idle -= charged, Used += charged; Releasing additionally Releasing += charged;
+//  Pipelined: Releasing -= charged, Idle untouched; reservation pods: GPU component 0."
+//@ define isReservation(task *pod_info.PodInfo) bool = pod_info.isReservationPod(task.Pod)
+//@ define nodeChargedGpus(task *pod_info.PodInfo) real = ite(isReservation(task), 0.0, chargedGpus(task))
+//@ define idlePart(task *pod_info.PodInfo, x real) real = ite(task.Status == pod_status.Pipelined, 0.0, x)
+//@ define relPart(task *pod_info.PodInfo, x real) real = ite(task.Status == pod_status.Releasing, x, ite(task.Status == pod_status.Pipelined, 0.0 - x, 0.0))
+//@ define idlePartI(task *pod_info.PodInfo, x int) int = ite(task.Status == pod_status.Pipelined, 0, x)
+//@ define relPartI(task *pod_info.PodInfo, x int) int = ite(task.Status == pod_status.Releasing, x, ite(task.Status == pod_status.Pipelined, 0 - x, 0))
+//@ define taskChargeable(task *pod_info.PodInfo) bool = acceptedReadable(task) && task.ResReq != nil && task.Pod != nil
+
+//@ func (*NodeInfo).addTaskResources
+//@   props C01 C14 C02
+//@   requires nodeWF(ni) && taskChargeable(task)
+//@   modifies ni.Used.milliCpu, ni.Used.memory, ni.Used.gpus, ni.Used.scalarResources[*], ni.Idle.milliCpu, ni.Idle.memory, ni.Idle.gpus, ni.Idle.scalarResources[*], ni.Releasing.milliCpu, ni.Releasing.memory, ni.Releasing.gpus, ni.Releasing.scalarResources[*], ni.UsedVector[*], ni.IdleVector[*], ni.ReleasingVector[*], ni.UsedSharedGPUsMemory[*], ni.ReleasingSharedGPUsMemory[*], ni.AllocatedSharedGPUsMemory[*], ni.ReleasingSharedGPUs[*], sumIdleGPUs(ni), sumIdleGPUMem(ni), sumReleasingGPUs(ni), sumReleasingGPUMem(ni)
+//@   ensures [usedCpuMem] ni.Used.milliCpu == old(ni.Used.milliCpu) + task.AcceptedResource.milliCpu && ni.Used.memory == old(ni.Used.memory) + task.AcceptedResource.memory
+//@   ensures [idleCpuMem] ni.Idle.milliCpu == old(ni.Idle.milliCpu) - idlePart(task, task.AcceptedResource.milliCpu) && ni.Idle.memory == old(ni.Idle.memory) - idlePart(task, task.AcceptedResource.memory)
+//@   ensures [relCpuMem] ni.Releasing.milliCpu == old(ni.Releasing.milliCpu) + relPart(task, task.AcceptedResource.milliCpu) && ni.Releasing.memory == old(ni.Releasing.memory) + relPart(task, task.AcceptedResource.memory)
+//@   ensures [usedScalars] forall k v1.ResourceName :: ni.Used.scalarResources[k] == old(ni.Used.scalarResources[k]) + old(chargedScalar(task, k))
+//@   ensures [idleScalars] forall k v1.ResourceName :: ni.Idle.scalarResources[k] == old(ni.Idle.scalarResources[k]) - old(idlePartI(task, chargedScalar(task, k)))
+//@   ensures [relScalars] forall k v1.ResourceName :: ni.Releasing.scalarResources[k] == old(ni.Releasing.scalarResources[k]) + old(relPartI(task, chargedScalar(task, k)))
+//@   ensures [idleScalarDom] forall k v1.ResourceName :: k in ni.Idle.scalarResources <==> ite(old(chargedHas(task, k) && task.Status != pod_status.Pipelined), ni.Idle.scalarResources[k] != 0, old(k in ni.Idle.scalarResources))
+//@   ensures [usedGpus] ni.Used.gpus == old(ni.Used.gpus) + nodeChargedGpus(task)
+//@   ensures [idleGpus] task.ResourceReceivedType != "Fraction" ==> ni.Idle.gpus == old(ni.Idle.gpus) - idlePart(task, nodeChargedGpus(task))
+//@   ensures [relGpus] task.ResourceReceivedType != "Fraction" ==> ni.Releasing.gpus == old(ni.Releasing.gpus) + relPart(task, nodeChargedGpus(task))
+//@   ensures [sharedUntouched] task.ResourceReceivedType != "Fraction" ==> forall g string :: ni.UsedSharedGPUsMemory[g] == old(ni.UsedSharedGPUsMemory[g]) && ni.ReleasingSharedGPUsMemory[g] == old(ni.ReleasingSharedGPUsMemory[g]) && ni.AllocatedSharedGPUsMemory[g] == old(ni.AllocatedSharedGPUsMemory[g]) && markedReleasing(ni, g) == old(markedReleasing(ni, g))
+//@   ensures [sharedUsed] task.ResourceReceivedType == "Fraction" && distinctGroups(task) ==> forall i int :: 0 <= i && i < len(task.GPUGroups) ==> ni.UsedSharedGPUsMemory[task.GPUGroups[i]] == old(ni.UsedSharedGPUsMemory[task.GPUGroups[i]]) + needMem(ni, task.ResReq)
+//@   ensures [sharedAllocated] task.ResourceReceivedType == "Fraction" && distinctGroups(task) ==> forall i int :: 0 <= i && i < len(task.GPUGroups) ==> ni.AllocatedSharedGPUsMemory[task.GPUGroups[i]] == old(ni.AllocatedSharedGPUsMemory[task.GPUGroups[i]]) + allocDelta(ni, task)
+//@   ensures [sharedReleasing] task.ResourceReceivedType == "Fraction" && distinctGroups(task) ==> forall i int :: 0 <= i && i < len(task.GPUGroups) ==> ni.ReleasingSharedGPUsMemory[task.GPUGroups[i]] == old(ni.ReleasingSharedGPUsMemory[task.GPUGroups[i]]) + relDelta(ni, task)
+//@   ensures [sharedOthers] forall g string :: !inGroups(task, g) ==> ni.UsedSharedGPUsMemory[g] == old(ni.UsedSharedGPUsMemory[g]) && ni.ReleasingSharedGPUsMemory[g] == old(ni.ReleasingSharedGPUsMemory[g]) && ni.AllocatedSharedGPUsMemory[g] == old(ni.AllocatedSharedGPUsMemory[g]) && markedReleasing(ni, g) == old(markedReleasing(ni, g))
+//@   ensures nodeWF(ni)
 //@ end
